@@ -429,16 +429,25 @@ define(
     'DESIGN.md section 7, C19',
     'Level is the weaker (bounded) one.')
 
-for _pid, _txt in [
-    ('C18', 'effect series well-formedness vs recomputation'),
-]:
-  define(
-      _pid, 'exploration', [], ENGINE_TRUST[:0] + [
-          'oracle written independently of the repository code'],
-      ['contracts for this property are not yet discharged deductively'],
-      'Bounded run-time contract on the real functions: ' + _txt + '.',
-      'DESIGN.md section 7, ' + _pid,
-      'Bounded; never counted as proved.')
+define(
+    'C18', 'exploration',
+    [('common_classes',
+      ['EstimatedTimeSeriesWithConfidenceInterval.__init__'], False)],
+    ENGINE_TRUST[:3] + [
+        'the series container is a DataFrame: after DataFrame.__init__ it has '
+        'a set of column names and real cells; df[a] > df[b] and np.any as '
+        'in the ledger'],
+    ['everything numeric (counterfactual, pointwise differences, cumulative '
+     'quantiles) is checked at run time only', 'floats as reals'],
+    'Proved: the series container accepts exactly the frames that have the '
+    'columns date / estimate / lower / upper and lower <= estimate <= upper '
+    'on every row (KeyError / ValueError otherwise), so every series of a '
+    'report that was built satisfies the ordering.  That the report '
+    'succeeds for every fitted experiment, counterfactual + difference = '
+    'observed, residuals and the last cumulative row against the TBR '
+    'posterior: bounded run-time contract vs recomputation.',
+    'DESIGN.md section 7, C18',
+    'Level is the weaker (bounded) one.')
 
 define(
     'C17', 'proof',
